@@ -38,6 +38,10 @@ func VerifC20_price_cache() {
 		}
 		stored := mte.marketToExchangePrices[market].exchangeToPriceTimestamp[c20Exchanges[ex]]
 		ndAssert(stored != nil && stored.LastUpdateTime.Equal(refT[ex]) && stored.Price == refP[ex], "stored-price-is-the-latest-by-update-time")
+		// a read may happen between two updates (at any read time): it must not change what is stored
+		if i == 0 && k > 1 && ndBool("readInBetween") {
+			mte.GetValidMedianPrices([]types.MarketParam{{Id: market, MinExchanges: 0}}, ndTime("earlyReadTime"))
+		}
 	}
 	readTime := ndTime("readTime")
 	ndAssume(readTime.After(time.Unix(0, 1<<51)))
